@@ -251,14 +251,15 @@ PROPS["C04"] = dict(
 PROPS["C19"] = dict(
     level="proof",
     text="type abstraction. Scalar fragment (Kani, complete: all 2^8 x 2^8 pairs of scalar kinds, loop-free): union/merge contain every member of both operands, the subtype test agrees with membership, the kind of a scalar value is exactly its kind. "
-         "Kind-level merging of collection kinds (Verus on the extracted real bodies of Kind::merge_primitives, merge_objects, merge_keep, union): under the union strategy the merged kind admits every scalar member, every object and every array either operand admits, given that law for Collection::merge",
+         "Kind-level merging of collection kinds (Verus on the extracted real bodies of Kind::merge_primitives, merge_objects, merge_keep, union): under the union strategy the merged kind admits every scalar member, every object and every array either operand admits, given that law for Collection::merge. The unknown part (Verus on the extracted real bodies of Unknown::merge, Infinite::merge, Infinite::covering, Infinite::any): under the union strategy the merged unknown kind admits every element value either side admits, for exact/exact, infinite/infinite and exact/infinite in both orders (the last failed on the tree as given)",
     kani=["k_kind_union_scalar", "k_kind_superset_scalar", "k_kind_of_scalar_value"],
-    verus=["v_kind_merge"],
-    bounded_native=[dict(unit="kind_union", bound="17 object/array/scalar kinds (empty, exact, any, nested one level, mixed with null) pairwise x 14 values",
+    verus=["v_kind_merge", "v_unknown_merge"],
+    bounded_native=[dict(unit="kind_union", bound="23 object/array/scalar kinds (empty, exact, any, json / timestamp / integer unknowns, nested one level, mixed with null) pairwise x 19 values, judged by an independent membership predicate",
                          functions=["Kind::union -> Collection::merge -> Unknown::merge, Kind::is_superset, Kind::from(&Value)"],
                          text="Collection::merge itself (BTreeMap walk, unknown handling) is only assumed by the Verus unit: on the stated domain a value of either operand's kind belongs to the union and the union is a superset of both operands")],
-    trusted=["verus prelude kindmerge.rs: collections are abstract; Collection::merge under the union strategy is ASSUMED to admit every value either operand admits (checked only on the bounded domain kind_union); Option::or by definition; Kind::clone is the identity"],
-    not_covered=["Collection::merge / Unknown::merge internals, and the type-level path operations at_path / insert / remove over BTreeMap-backed collections: symbolic collection kinds are out of CBMC's reach here (rule 1) and BTreeMap iteration is outside Verus' subset",
+    trusted=["verus prelude kindmerge.rs: collections are abstract; Collection::merge under the union strategy is ASSUMED to admit every value either operand admits (checked only on the bounded domain kind_union); Option::or by definition; Kind::clone is the identity",
+             "verus prelude unknownmerge.rs: an element value is abstracted to the set of type tags occurring in it; an infinite kind admits a value iff all its tags are states of the kind; Kind::from(Infinite) has that membership; Kind::is_superset is sound (Ok implies inclusion; its scalar fragment is decided by Kani); removing `undefined` changes no membership of a value; Kind::merge_keep admits both operands (v_kind_merge)"],
+    not_covered=["Collection::merge (the BTreeMap walk over known fields), and the type-level path operations at_path / insert / remove over BTreeMap-backed collections: symbolic collection kinds are out of CBMC's reach here (rule 1) and BTreeMap iteration is outside Verus' subset",
                  "so the path-operation clauses of C19 (get/insert/remove on types) are NOT decided by this check"],
 )
 
